@@ -1439,7 +1439,8 @@ def gen_cat_case(rng):
     return dict(n=n, a=round(rng.uniform(0.5, 1.0), 3), p=rng.choice([0, 1]), rep=rng.choice(["complex", "real"]),
                 r=round(rng.uniform(0.1, 0.3), 3), theta=round(rng.uniform(0.3, 1.2), 3), bsphi=round(rng.uniform(-1, 1), 3),
                 k=rng.randrange(n), phi=rng.choice([0.0, math.pi / 2, round(rng.uniform(-3, 3), 3)]),
-                select=round(rng.uniform(-0.6, 0.6), 3), hbar=rng.choice(HBARS))
+                select=round(rng.uniform(-0.6, 0.6), 3), hbar=rng.choice(HBARS), entangle=rng.random() < 0.7,
+                disp=[rng.choice([0.0, round(rng.uniform(0.1, 0.4), 3)]), round(rng.uniform(-2, 2), 3)])
 
 
 def cat_program(case, backend):
@@ -1450,7 +1451,9 @@ def cat_program(case, backend):
             ops.Catstate(case["a"], 0.0, case["p"], representation=case["rep"]) | q[0]
         else:
             ops.Catstate(case["a"], 0.0, case["p"]) | q[0]
-        if n == 2:
+        if case.get("disp", [0, 0])[0]:
+            ops.Dgate(case["disp"][0], case["disp"][1]) | q[0]
+        if n == 2 and case.get("entangle", True):
             ops.Squeezed(case["r"], 0.0) | q[1]
             ops.BSgate(case["theta"], case["bsphi"]) | (q[0], q[1])
         ops.MeasureHomodyne(case["phi"], select=case["select"]) | q[case["k"]]
@@ -1467,6 +1470,8 @@ def check_cat(case):
             cb = eb.backend.circuit
         except Exception as e:
             allm = ":all-modes-measured" if n == 1 else ""
+            if isinstance(e, TypeError) and case["rep"] == "real":
+                allm = ":cat-real-weights"
             return [("raises:bosonic:hom:select:%s%s" % (type(e).__name__, allm), "bosonic cat-state homodyne raised %r" % (e,))]
         ef = sf.Engine("fock", backend_options={"cutoff_dim": 22 if n == 1 else 15})
         rf = ef.run(cat_program(case, "fock"))
@@ -1504,7 +1509,9 @@ def reject_program(case):
     prog = sf.Program(n)
     with prog.context as q:
         ops.Catstate(case["a"], 0.0, case["p"], representation=case["rep"]) | q[0]
-        if n == 2:
+        if case.get("disp", [0, 0])[0]:
+            ops.Dgate(case["disp"][0], case["disp"][1]) | q[0]
+        if n == 2 and case.get("entangle", True):
             ops.Squeezed(case["r"], 0.0) | q[1]
             ops.BSgate(case["theta"], case["bsphi"]) | (q[0], q[1])
         if case["kind"] == "hom":
@@ -1563,7 +1570,8 @@ def check_reject(case):
     try:
         _, rec0 = reject_probe(case, case["pts"][0], 0, 0.0)
     except Exception as e:
-        return [("raises:bosonic:%s:sample:%s:cat" % (case["kind"], type(e).__name__), "sampling a cat-state measurement raised %r" % (e,))]
+        tag = ":cat-real-weights" if isinstance(e, TypeError) and case["rep"] == "real" else ":cat"
+        return [("raises:bosonic:%s:sample:%s%s" % (case["kind"], type(e).__name__, tag), "sampling a cat-state measurement raised %r" % (e,))]
     pre = rec0["pre"]
     npk = len(rec0["a"])
     # proposal components, one forced run per envelope peak
@@ -1587,8 +1595,18 @@ def check_reject(case):
             tot = tot + w * n2(x, mu[idx], np.real(cv[np.ix_(idx, idx)]) + sig)
         return float(np.real(tot))
 
+    def rotated_block(mu):
+        if case["kind"] != "hom":
+            return mu[idx]
+        c, sn = math.cos(case["phi"]), math.sin(case["phi"])
+        return np.array([c * mu[idx[0]] + sn * mu[idx[1]], -sn * mu[idx[0]] + c * mu[idx[1]]])
+    blocks = [np.real(rotated_block(mu)) for mu in pre["means"]]
+    centre = np.mean(blocks, axis=0)
+    pts = [list(map(float, case["pts"][0])), list(map(float, case["pts"][1])),
+           [float(centre[0]) + 0.05, float(centre[1]) - 0.03], [float(blocks[0][0]) - 0.1, float(blocks[0][1]) + 0.07],
+           [float(centre[0]) - 0.21, float(centre[1]) + 0.4]]
     ratios = []
-    for x in case["pts"]:
+    for x in pts:
         lo, hi = 0.0, 1.0
         acc1, _ = reject_probe(case, x, case["peak"] % npk, 1.0 - 1e-12)
         if acc1:
@@ -1605,13 +1623,11 @@ def check_reject(case):
         g = float(sum(Pj * n2(x, m, S) for Pj, (m, S) in zip(P, comps)))
         ratios.append((rho, g, born(x)))
     case["_ratios"] = [[float(v) for v in r] for r in ratios]
-    (r0, g0, p0), (r1, g1, p1) = ratios
-    if min(r0, r1) < 0.01 or min(p0, p1) <= 0 or min(g0, g1) <= 0:
-        return fails  # acceptance too small to be measured by bisection; not informative
-    k0, k1 = r0 * g0 / p0, r1 * g1 / p1
-    if abs(k0 - k1) > 4e-3 * max(k0, k1):
-        fails.append(("born:bosonic:reject:acceptance", "bosonic %s on a %d-peak cat state: acceptance x proposal is not proportional to the Born density "
-                      "(acceptance %.5f, %.5f; proposal %.5g, %.5g; Born %.5g, %.5g at two outcomes)" % (case["kind"], len(pre["weights"]), r0, r1, g0, g1, p0, p1)))
+    ks = [r * g / pb for r, g, pb in ratios if r >= 0.01 and pb > 1e-9 and g > 0]
+    if len(ks) >= 2 and (max(ks) - min(ks)) > 4e-3 * max(ks):
+        fails.append(("born:bosonic:reject:acceptance", "bosonic %s on a %d-peak cat state: acceptance x proposal / Born density is not constant over outcomes: %s "
+                      "(acceptance, proposal, Born density at the probed outcomes: %s)" % (case["kind"], len(pre["weights"]), np.round(ks, 5).tolist(),
+                                                                                          [[float("%.5g" % v) for v in r] for r in ratios])))
     return fails
 
 
@@ -1767,6 +1783,6 @@ def replay(ctx, data):
         print("FAILS [%s] %s" % (s_, what))
     if not fails:
         print("all predicates hold on this input")
-    if sig and any(s_ == sig for s_, _ in fails):
-        return True
-    return bool(fails) and not (sig and sig.startswith(("dyne:", "select:", "sample-vs-select:", "raises:", "fock:", "born:", "threshold:", "layout:", "gaussian:", "cat:", "fock-homodyne:")) and not any(s_ == sig for s_, _ in fails)) or bool(fails and not sig)
+    if sig and not sig.startswith(("corr:", "obligation:")):
+        return any(s_ == sig for s_, _ in fails)
+    return bool(fails)
